@@ -136,6 +136,10 @@ func checkValue(res Decimal, neg bool, isInf bool, c Z, e int, what string) {
 	rs, rexp := res.decompose()
 	re := int(rexp) - exponentBias
 	R := z128(rs)
+	if c.IsZero() {
+		check(R.IsZero(), what+": result is not the correctly rounded value (zero expected)")
+		return
+	}
 	if re == e {
 		check(R.Eq(c), what+": result is not the correctly rounded value")
 		return
